@@ -48,6 +48,8 @@ def r_all(model, rep):
     fn = model.own_method("System", "rail_rep")
     if fn is None:
         raise AnalysisError("System.rail_rep not found")
+    from ..core import inline_nested_defs
+    fn = inline_nested_defs(fn)
     where = "%s:%d" % (rel, fn.lineno)
     body = [s for s in fn.body if not (isinstance(s, ast.Expr) and isinstance(s.value, ast.Constant))]
     # ---- R0 forwarding
